@@ -3,7 +3,9 @@ Tie C: the real Prover (IsValid/Add/CreateProof) and Verifier.Verify on real par
 keys, random signing subsets around the proven-weight threshold and single-field mutations of the valid proofs, against
 Model.StateProof instantiated with ideal primitives (symbolic signatures, binding vector commitments, the coin XOF as
 the table of coins the REAL generator produced).  The monitor evaluates the property on the implementation's verdicts
-alone: honest proofs verify; every single-field mutation is rejected.  A second stream drives the real
+alone: honest proofs verify; every single-field mutation is rejected; a forged proof (built from scratch with
+self-consistent commitments) is accepted only if every coin is answered by a valid signature of a positive-weight participant
+whose interval [L, L+Weight) contains it over the naturals.  A second stream drives the real
 stateproof/verify.ValidateStateProof / AcceptableStateProofWeight (ledger context) against Model.StateProof.validateStateProof."""
 import common
 
@@ -72,6 +74,8 @@ def _slot_of(slots, c):
 def monitor(op, impl):
     """The property evaluated on the implementation's outputs alone (ground truth = the symbolic data of the op line)."""
     try:
+        if op.startswith("fg "):
+            return monitor_forge(op, impl)
         o = parse_op(op)
         if o is None:
             return None
@@ -139,6 +143,44 @@ def monitor(op, impl):
             return "the tampered proof (%s) is accepted" % ":".join(m)
     except (ValueError, IndexError, KeyError, ZeroDivisionError):
         return "unparsable implementation output %r for %r" % (impl[:80], op[:80])
+    return None
+
+
+def monitor_forge(op, impl):
+    """Soundness on forged proofs (attacker-chosen signature array with self-consistent commitments): Verify accepts only if
+    every listed position is revealed, carries a VALID signature of a participant with Weight > 0, and its coin lies in
+    [L, L+Weight) over the naturals (no uint64 wrap); hence the distinct revealed signers have positive total weight."""
+    f = op.split()
+    d = dict(kv.split("=", 1) for kv in f[1:])
+    if impl.startswith("PANIC"):
+        return "the implementation panicked"
+    r = parse_res(impl)
+    if r.get("verify") != "ok":
+        return None
+    ps = [p.split(":") for p in d["parts"].split(",")]
+    weights, keys = [int(p[0]) for p in ps], [int(p[1]) for p in ps]
+    sigs = {}
+    if d["sigs"] != "-":
+        for t in d["sigs"].split(","):
+            a, b, c = (int(x) for x in t.split(":"))
+            sigs[a] = (b, c)
+    pos, rev, coins, st = _nums(d["pos"]), _nums(d["rev"]), _nums(d["coins"]), int(d["st"])
+    what = "forged proof accepted (claimed signed weight %s, proven weight %s, %d reveals): " % (d["sw"], d["pw"], len(pos))
+    if not pos and st != 0:
+        return what + "no position is revealed at strength %d" % st
+    for p in rev:
+        if p not in sigs or sigs[p][1] != keys[p]:
+            return what + "the reveal of position %d carries no valid signature of that participant" % p
+    for j, p in enumerate(pos):
+        if p not in rev:
+            return what + "position %d is not revealed" % p
+        L, W = sigs[p][0], weights[p]
+        if W == 0:
+            return what + "coin %d is answered by the ZERO-weight participant %d (L=%d)" % (j, p, L)
+        if not (L <= coins[j] < L + W):
+            return what + "coin %d = %d is outside [L, L+Weight) = [%d, %d) of position %d" % (j, coins[j], L, L + W, p)
+    if pos and sum(weights[p] for p in set(pos)) == 0:
+        return what + "the revealed signers have no weight"
     return None
 
 
@@ -210,6 +252,8 @@ def monitor_ledger(op, impl):
 
 
 def trivial(op):
+    if op.startswith("fg "):
+        return False
     if op.startswith("accw "):
         return " ivl=0 " in op or " total=0 " in op
     if op.startswith("vsp "):
@@ -251,15 +295,17 @@ def run(ctx, replay_ops=None):
                        "below the signed weight x strength target in {0..256}; per case the honest proof plus ~45 single-field mutations "
                        "(message, round, signature bytes / key / salt, slot L, reveal swap, participant weight / key / lifetime, SignedWeight, "
                        "SigCommit / participants commitment / proof path / tree depth, positions edits incl. coins on slot boundaries, salt version, "
-                       "reveals map edits); second stream: the real ValidateStateProof on honest proofs whose message is stateproofmsg.Message.Hash(), "
+                       "reveals map edits); forged proofs built from scratch (attacker-chosen signature array incl. zero-weight-only signers, "
+                       "free L values — cumulative / overlapping / shifted / at the top of the uint64 range —, honest SigCommit and openings over it, claimed "
+                       "SignedWeight, positions fitted to the coins after commitment; exhaustive grid Weight 0..3 x L 0..4 x claimed weight 1..6, Boundary64 pairs); second stream: the real ValidateStateProof on honest proofs whose message is stateproofmsg.Message.Hash(), "
                        "with the ledger context varied (validation round across the acceptable-weight ramp, interval 0 / non-dividing, attested round "
                        "off the grid or in another key period, other message, other total weight / threshold) and AcceptableStateProofWeight on "
                        "boundary-biased operands; an op is trivial when no proof can be built (signed weight <= proven weight or proven weight 0) "
                        "or the acceptable-weight operands are degenerate; distinct = distinct op lines")
     sp_ops = led_ops = None
     if replay_ops is not None:
-        sp_ops = [o for o in replay_ops if o.startswith("sp ")]
-        led_ops = [o for o in replay_ops if not o.startswith("sp ")]
+        sp_ops = [o for o in replay_ops if o.startswith(("sp ", "fg "))]
+        led_ops = [o for o in replay_ops if not o.startswith(("sp ", "fg "))]
     res = None
     if replay_ops is None or sp_ops:
         res = common.correspondence(ctx, pkg="./crypto/stateproof", test="TestVerifC39", name="c39", drivers=[("c39", [], "model")],
@@ -284,6 +330,8 @@ def run(ctx, replay_ops=None):
             k = kind_of(o)
             key = "%s -> %s" % (k, r.get("verify") or ("create=" + r.get("create", "?")))
             br[key] = br.get(key, 0) + 1
+            if k == "fg":
+                continue
             if k == "mut:none" and r.get("verify") == "ok":
                 honest_ok += 1
             elif k != "mut:none" and r.get("verify", "").startswith("err"):
